@@ -71,3 +71,8 @@ M("c05-exit-checkpoint-outside-try", "C05", A, "TaskGroup.__aexit__",
 
 # from seeded change C05/e (round 3): the visibility walk honours only the starting scope's shield
 M("c05-visibility-walk-own-shield-only", "C05", A, "CancelScope._effectively_cancelled", "            if cancel_scope.shield:\n                return False", "            if self.shield:\n                return False", ["R05-g"])
+
+# from seeded change C05/g (round 4)
+M("c05-native-cancel-replacement-tests-carried-exception", "C05", A, "TaskGroup.__aexit__",
+  "                        if exc_val is None or (\n                            isinstance(exc_val, CancelledError)\n                            and not is_anyio_cancellation(exc)\n                        ):\n                            exc_val = exc\n\n                if self._tasks:",
+  "                        if exc_val is None or (\n                            isinstance(exc_val, CancelledError)\n                            and not is_anyio_cancellation(exc_val)\n                        ):\n                            exc_val = exc\n\n                if self._tasks:", ["R05-h"])
